@@ -122,6 +122,8 @@ let dispatch (op : string) (t : toks) : string =
         | "d" -> Dial (get_bytes t)
         | s -> raise (Bad ("reg op " ^ s))) in
       out_list (out_option (fun d -> out_int (int_of_n d))) (reg_run [] ops)
+  | "setbody" ->
+      let (b, h) = set_body (get_bytes t) in out_bytes b ^ " " ^ out_bytes h
   | _ -> raise Not_found
 
 let () =
